@@ -24,7 +24,7 @@ FUNCTIONS = ['ChannelIdentifier.__eq__', 'QubitIDObj.__eq__', 'QubitIDObj.__hash
              'EdgeIDObj.contains', 'EdgeIDObj.get_connected_qubit_id', 'unique_in_order']
 BOUNDS = {'quick': "channel identifiers: ids unbounded symbolic ints, all 4x4(x4) channel kinds, pairs and triples; qubit/edge identifiers: "
                    "unbounded symbolic names, all equality patterns of 4 names; unique_in_order: sequences of length <= 5 of unbounded symbolic ints",
-          'thorough': "as quick, sequences of length <= 7"}
+          'thorough': "as quick, sequences of length <= 8"}
 OUTSIDE = ["sequences longer than the bound", "degenerate edges (both ends the same qubit) are outside the edge-equality claim",
            "unhashable / inconsistent-hash elements for unique_in_order (ChannelIdentifier itself has eq-compatible elements with different hashes)"]
 ASSUMPTIONS = ["builtin hash of a tuple / of a str inside EdgeIDObj.__hash__ / QubitIDObj.__hash__ is an uninterpreted function",
@@ -97,7 +97,7 @@ def jobs(tier, seed):
     out = [{'part': 'channel', 'ca': a, 'cb': b} for a in range(4) for b in range(4)]
     out += [{'part': 'triple', 'ca': a, 'cb': b, 'cc': c} for a in range(4) for b in range(4) for c in range(4)]
     out += [{'part': 'qubit'}, {'part': 'edge'}]
-    nmax = 5 if tier == 'quick' else 7
+    nmax = 5 if tier == 'quick' else 8
     out += [{'part': 'unique', 'n': n} for n in range(0, nmax + 1)]
     return out
 
